@@ -111,6 +111,11 @@ var mgWants = []mgWant{
 	{"internal/trigger/file/stages_worker.go", "", "runStage", "#0", "file_stageGoroutine"},
 	{"internal/trigger/file/stages_worker.go", "", "setEnvs", "", "file_setEnvs"},
 	{"internal/trigger/file/stages_worker.go", "", "unsetEnvs", "", "file_unsetEnvs"},
+	{"pkg/f1/f1.go", "F1", "execute", "", "f1_execute"},
+	{"pkg/f1/f1.go", "", "newSignalContext", "", "f1_newSignalContext"},
+	{"pkg/f1/f1.go", "", "newSignalContext", "#0", "f1_signalLoop"},
+	{"internal/workers/trigger_pool.go", "TriggerPool", "Start", "#0", "pool_stopper"},
+	{"internal/workers/continuous_pool.go", "ContinuousPool", "Start", "#0", "cpool_watcher"},
 	{"internal/trigger/file/stages_worker.go", "", "runStage", "", "file_runStage"},
 	{"internal/trigger/users/users_rate.go", "", "NewWorker", "return", "users_NewWorker"},
 	{"internal/trigger/users/users_rate.go", "", "Rate", "#0/trigger", "users_trigger"},
@@ -523,6 +528,9 @@ func (c *mgCtx) expr(e ast.Expr) string {
 	return c.unsupportedE(e)
 }
 
+// niladic methods used for their result that are not reads of the environment: the call itself matters
+var effectfulNiladic = map[string]bool{"stop": true}
+
 func (c *mgCtx) call(x *ast.CallExpr) string {
 	// conversions
 	switch f := x.Fun.(type) {
@@ -592,8 +600,8 @@ func (c *mgCtx) call(x *ast.CallExpr) string {
 				return "(.builtin1 " + leanStr(m) + " (.var " + leanStr(recv) + "))"
 			case len(x.Args) == 0 && c.opaque[rootName(sel.X)]:
 				return "(.field " + c.expr(sel.X) + " " + leanStr(m+"()") + ")" // a niladic method of a call result: a projection
-			case len(x.Args) == 0 && c.inLoop > 0:
-				return "(.call0 " + leanStr(recv+"."+m) + ")" // read again on every iteration: an oracle
+			case len(x.Args) == 0 && (c.inLoop > 0 || effectfulNiladic[m]):
+				return "(.call0 " + leanStr(recv+"."+m) + ")" // read again on every iteration / a call that does something: an oracle, counted
 			case len(x.Args) == 0:
 				return "(.var " + leanStr(recv+"."+m+"()") + ")" // a niladic method: a read of the environment
 			case len(x.Args) == 1 && builtin2[m]:
